@@ -436,6 +436,7 @@ def run(rep, tier):
     from props import c13_audit
     c13_audit.end_position_rule(rep, us["proto/radius.h"])
     c13_audit.chunk_end_rule(rep, us["src/proto/http.c"])
+    rep.floor("pointer cursor/limit obligations (dns.h)", c13_audit.cursor_limit_rule(rep, us["proto/dns.h"]), 8)
     usap = driver.load_units([common.src_unit("src/proto/sap_rcvr.c")])["src/proto/sap_rcvr.c"]
     rep.floor("terminated receive buffers", c13_audit.terminator_room_rule(rep, usap, "src/proto/sap_rcvr.c"), 1)
     # request line: the components returned are sub-spans of the target (rule lives in C20)
